@@ -48,6 +48,7 @@ type Contract struct {
 	Theory   string
 	Pure     bool
 	Wraps    bool // arithmetic intended to wrap: no range obligations
+	ModGoHeap bool // `modifies goheap`: the Go heap is unconstrained, ghost components are framed
 	Invokes  string // `invokes p`: the (library) function calls its function-valued parameter p once, synchronously, with non-nil arguments
 	Trusted  bool
 	Refines  []string
@@ -111,7 +112,7 @@ type GhostDecl struct {
 	Args int
 }
 
-var clauseHead = regexp.MustCompile(`^(requires|ensures|assume|invariant|step|decreases|hint|exithint|rethint)\s*(\[[^\]]*\])?\s*([A-Za-z_][A-Za-z0-9_\-]*)\s*:\s*(.*)$`)
+var clauseHead = regexp.MustCompile(`^(requires|ensures|assume|invariant|step|backstep|decreases|hint|exithint|rethint)\s*(\[[^\]]*\])?\s*([A-Za-z_][A-Za-z0-9_\-]*)\s*:\s*(.*)$`)
 
 func newSpecSet() *SpecSet {
 	return &SpecSet{Contracts: map[string]*Contract{}, Ghosts: map[string]*GhostDecl{}, Preds: map[string]*Pred{}}
@@ -430,6 +431,11 @@ func (ss *SpecSet) parseFile(path string, trusted bool, pkgName string) {
 				cur.ModAll = true
 				continue
 			}
+			if rest == "goheap" {
+				// every Go heap location may change; ghost state does not (checked for the body)
+				cur.ModGoHeap = true
+				continue
+			}
 			for _, part := range splitTop(rest) {
 				part = strings.TrimSpace(part)
 				e, err := parser.ParseExpr(part)
@@ -492,7 +498,8 @@ func (ss *SpecSet) parseFile(path string, trusted bool, pkgName string) {
 				switch c.Kind {
 				case "invariant":
 					ls.Invariants = append(ls.Invariants, c)
-				case "step":
+				case "step", "backstep":
+					// backstep: checked on the edges that go round the loop only, not on the edges that leave it
 					ls.Steps = append(ls.Steps, c)
 				case "decreases":
 					ls.Decreases = append(ls.Decreases, c)
